@@ -682,6 +682,9 @@ class _QueueNew:
     def empty(self):
         return not self.items
 
+    def qsize(self):
+        return len(self.items)
+
 
 class _QueueMod:
     Queue = _QueueNew
@@ -691,7 +694,7 @@ class _QueueMod:
 
 
 queue = _QueueMod()
-core_trusted = 'queue.Queue = FIFO sequence (put appends, get removes the head, empty <=> length 0)'
+core_trusted = 'queue.Queue = FIFO sequence (put appends, get removes the head, empty <=> length 0, qsize = length)'
 
 
 def vc_ordered_dict(*a, **k):
